@@ -1334,12 +1334,13 @@ impl Family for F10 {
 ///  * b=1 is one of {no dependencies, requires a package without candidates, Unknown dependencies,
 ///    excluded};
 ///  * t requires a* or nothing and x in one of {nothing, x{1}, x{2}, x*};
+///  * x=1 has no dependencies, Unknown dependencies, or requires dep=1 (a package nobody else needs);
 ///  * root requires base, or base and x*;
 ///  * soft list: [s, t], [t, s], [s, t, s], [t].
 pub struct F11;
 
 impl F11 {
-    const DIMS: [u64; 10] = [2, 2, 5, 6, 6, 4, 2, 4, 2, 4];
+    const DIMS: [u64; 11] = [2, 2, 5, 6, 6, 4, 2, 4, 2, 4, 3];
 }
 
 impl Family for F11 {
@@ -1350,7 +1351,7 @@ impl Family for F11 {
         Self::DIMS.iter().product()
     }
     fn get(&self, mut idx: u64) -> Case {
-        let mut d = [0u64; 10];
+        let mut d = [0u64; 11];
         for (i, n) in Self::DIMS.iter().enumerate() {
             d[i] = idx % n;
             idx /= n;
@@ -1430,6 +1431,20 @@ impl Family for F11 {
             1 => u.solvs[t1 as usize].deps.push_req(Req::Single(x_1)),
             2 => u.solvs[t1 as usize].deps.push_req(Req::Single(x_2)),
             3 => u.solvs[t1 as usize].deps.push_req(Req::Single(x_all)),
+            _ => {}
+        }
+        // x=1 itself: no dependencies, Unknown dependencies, or a requirement on a package nobody else needs
+        match d[10] {
+            1 => {
+                let r = u.add_string("unknown-x");
+                u.solvs[x1 as usize].deps = Deps::Unknown(r);
+            }
+            2 => {
+                let dep = u.add_name("dep");
+                let dep1 = u.add_solv(dep, 1);
+                let dep_all = u.add_vset(dep, &[dep1]);
+                u.solvs[x1 as usize].deps.push_req(Req::Single(dep_all));
+            }
             _ => {}
         }
         let mut p = Problem::default();
